@@ -113,6 +113,16 @@ Proof.
         cbn [rev]. eapply perm_trans; [apply perm_skip; exact IH|].
         apply Permutation_cons_append.
     + specialize (IH row). destruct (run_vec_drain steps row) as [[o y] r]. exact IH.
+    + destruct row as [|x row'].
+      * apply IH.
+      * specialize (IH row'). destruct (run_vec_drain steps row') as [[o y] r].
+        cbn [app]. apply perm_skip. exact IH.
+    + destruct (rev row) as [|x rrow'] eqn:E.
+      * apply IH.
+      * specialize (IH (rev rrow')). destruct (run_vec_drain steps (rev rrow')) as [[o y] r].
+        cbn [app]. apply (f_equal (@rev A)) in E. rewrite rev_involutive in E. subst row.
+        cbn [rev]. eapply perm_trans; [apply perm_skip; exact IH|].
+        apply Permutation_cons_append.
 Qed.
 
 End RemoveRow.
